@@ -849,6 +849,15 @@ class Module:
                 self.fns[name] = fn
                 i = j + 1
                 continue
+            m = re.match(r'^const (\S+): (\S+) = const (.+);$', l)
+            if m:
+                # a literal constant dumped on one line: `const NAME: f32 = const 0.6f32;`  -> a body that returns the literal
+                name = m.group(1)
+                fn = Fn(name, l, ['    let mut _0: %s;' % m.group(2), '', '    bb0: {', '        _0 = const %s;' % m.group(3), '        return;', '    }'], is_const=True)
+                fn.ret_ty = m.group(2)
+                self.consts[name] = fn
+                i += 1
+                continue
             m = re.match(r'^(?:const|static(?: mut)?) (.*): (.*) = \{$', l)
             if m:
                 j = i + 1
